@@ -354,6 +354,59 @@ def _ssel(idx, legacy, sv, smax):
                      "recver": wire[2]}}
 
 
+def sselres(job):
+    try:
+        return _sselres(*job)
+    except BaseException:
+        import traceback
+        return {"crash": traceback.format_exc(), "sid": str(job)}
+
+
+def _sselres(idx, low, cname):
+    """a session made at TLS 1.2 with a TLS 1.2-only suite is offered again (session ID, and the suite is still in the
+    list) by a ClientHello of an OLDER version: whatever the server answers, the suite of its ServerHello is defined for
+    the version it announces"""
+    from ..endpoints import Pair, Task, run_tasks, cred, settings
+    from tlslite.api import SessionCache
+    from tlslite.constants import CipherSuite, HandshakeType, ContentType, ExtensionType
+    from tlslite.messages import ServerHello
+    from tlslite.utils.codec import Parser
+    p = Pair("c20sselres-%d" % idx)
+    ch, key = cred("rsa")
+    cache = SessionCache()
+    st, co, so = p.handshake(ckw=dict(settings=settings(minVersion=(3, 3), maxVersion=(3, 3), cipherNames=[cname])),
+                             skw=dict(certChain=ch, privateKey=key, settings=settings(), sessionCache=cache))
+    if not (co.ok and so.ok):
+        return {"skip": "first connection failed: %s / %s" % (co.describe(), so.describe()), "sid": idx}
+    prior = p.c.session
+    p.close("c")
+    p.read("s", 10, 0)
+    p.reconnect()
+    orig = p.c._sendMsg
+
+    def wrap(msg, *a, **kw):
+        if msg.contentType == ContentType.handshake and getattr(msg, "handshakeType", None) == HandshakeType.client_hello:
+            msg.session_id = bytearray(prior.sessionID)
+            msg.cipher_suites = [prior.cipherSuite] + [c for c in msg.cipher_suites if c != prior.cipherSuite]
+        return orig(msg, *a, **kw)
+    p.c._sendMsg = wrap
+    tc = Task("c", p.c.handshakeClientCert(async_=True, settings=settings(minVersion=(3, 1), maxVersion=low)), p.csock)
+    ts = Task("s", p.s.handshakeServerAsync(certChain=ch, privateKey=key, settings=settings(minVersion=(3, 1)), sessionCache=cache), p.ssock)
+    run_tasks([tc], p.pipes, max_steps=20000)
+    run_tasks([ts], p.pipes, max_steps=20000)
+    wire = bytes(p.s2c.sent_log)
+    if len(wire) < 10 or wire[0] != 22 or wire[5] != 2:
+        return {"skip": "no ServerHello (%s)" % ts.out.describe(), "sid": idx}
+    ln = int.from_bytes(wire[6:9], "big")
+    sh = ServerHello().parse(Parser(bytearray(wire[6:9 + ln])))
+    ext = sh.getExtension(ExtensionType.supported_versions)
+    v = ext.version if ext is not None else sh.server_version
+    name = CipherSuite.ietfNames.get(sh.cipher_suite, "TLS_UNKNOWN_%04x" % sh.cipher_suite)
+    return {"sid": idx, "ver": [v[0], v[1]], "name": name, "tokens": name.split("_"),
+            "ssel": {"ev": "SSEL", "ver": v[1] if v[0] == 3 else -1, "want": low[1], "legacy": low[1], "sv": [], "smax": 4,
+                     "recver": wire[2]}}
+
+
 MULTI_CLIENTS = [
     ("default", {}),
     ("sha384-only", dict(rsaSigHashes=["sha384"], ecdsaSigHashes=["sha384"])),
@@ -512,6 +565,9 @@ def run(tier):
     # ---- what the server under test selects when legacy version and supported_versions disagree
     with Pool(16) as pool:
         ssouts = pool.map(ssel, [(i,) + c for i, c in enumerate(SSEL_CASES)], chunksize=2)
+    with Pool(8) as pool:
+        ssouts += pool.map(sselres, [(i, low, cn) for i, (low, cn) in enumerate(
+            (lo, c_) for lo in ((3, 2), (3, 1)) for c_ in ("aes256gcm", "aes128gcm", "chacha20-poly1305", "aes128ccm"))])
     nss = 0
     for o in ssouts:
         if "crash" in o:
